@@ -177,10 +177,9 @@ def exit_at(rng, point, blackout=False, yielding=False):
         if blackout:
             s.net.blackhole = True
         s.advance(point)
-        s.run(s.man.__aexit__(None, None, None))
-        s.entered = False
+        returned = s.exit_context()
         s.advance(1.0)
-        return [{"kind": "exit", "point": int(point * 1000),
+        return [{"kind": "exit", "point": int(point * 1000), "returned": returned,
                  "endpoints_open": [[tr.id, "LOC" if tr.kw.get("allow_broadcast") else "SPA"] for tr in loop.transports if not tr.closed],
                  "tasks_alive": sorted(t.get_name() for t in loop.tasks if not t.done() and t.get_name().startswith(FAMILY + ("SPAMAN:", "ASYNC:")))}]
     finally:
